@@ -24,7 +24,19 @@ def strip_error_if(t):
     return subst(t, rw)
 
 
-def compare(rep, rule, site, k, got, want, what):
+def compare(rep, rule, site, k, got, want, what, alternatives=()):
+    """`alternatives`: further reference terms that are equally acceptable (other spellings of the same meaning
+    that the canonical forms do not identify); the first reference is the one quoted in a report."""
+    for alt in alternatives:
+        a2 = strip_error_if(alt)
+        g2 = strip_error_if(got)
+        if not has_unknown(g2) and not has_unknown(a2):
+            try:
+                if equal(g2, a2):
+                    rep.holds(rule, site, k, f"{what} == {show(a2, 160)} (accepted alternative form)")
+                    return True
+            except Inconclusive:
+                pass
     got, want = strip_error_if(got), strip_error_if(want)
     if has_unknown(got) or has_unknown(want):
         rep.undecided(rule, site, k, f"unmodelled: {find_unknown(got) or find_unknown(want)}")
